@@ -25,7 +25,18 @@ func (g *JSONDoc) WS(b []byte, n int) []byte {
 	if n <= 0 {
 		return b
 	}
-	mode := g.T.Intn(3)
+	mode := g.T.Intn(4)
+	if mode == 3 {
+		// a drawn pattern of eight whitespace bytes, repeated
+		var pat [8]byte
+		for i := range pat {
+			pat[i] = wsBytes[g.T.Intn(4)]
+		}
+		for i := 0; i < n; i++ {
+			b = append(b, pat[i%8])
+		}
+		return b
+	}
 	for i := 0; i < n; i++ {
 		switch mode {
 		case 0:
